@@ -49,12 +49,12 @@ struct Tracked {
       return Base + a;
     }
     if (st == 2) {
-      return 7777;  // moved-from
+      return 77;  // moved-from
     }
     if (st == 3) {
-      return 8888;  // destroyed
+      return 88;  // destroyed
     }
-    return 9999;  // never constructed / torn
+    return 99;  // never constructed / torn
   }
   Tracked(const Tracked& o) noexcept : a{o.a}, chk{o.chk}, st{o.st} {
     if (InSlot(&o)) {
@@ -97,12 +97,12 @@ struct Tracked {
   }
 };
 
-struct Val : Tracked<1000> {
-  using Tracked<1000>::Tracked;
+struct Val : Tracked<10> {
+  using Tracked<10>::Tracked;
 };
-struct Err : Tracked<2000> {
-  using Tracked<2000>::Tracked;
-  Err(yaclib::StopTag) noexcept : Tracked<2000>{999} {
+struct Err : Tracked<20> {
+  using Tracked<20>::Tracked;
+  Err(yaclib::StopTag) noexcept : Tracked<20>{9} {
   }
   static const char* What() noexcept {
     return "Err";
@@ -122,7 +122,7 @@ long Code(const R& r) {
     case yaclib::ResultState::Error:
       return r.Error().CodeOf();
     default:
-      return 9999;
+      return 99;
   }
 }
 
@@ -231,14 +231,14 @@ void CheckGot(const char* what, long code) {
 yaclib::Future<> Awaiter(const SF& f, CbRec* rec, std::string src, std::string hname) {
   // the awaiter object holds its own copy of the shared state for the duration of the co_await expression
   vrt::Event("await " + src + " " + hname + " " + rec->name);
-  long code = 9999;
+  long code = 99;
   try {
     Val v = co_await f;  // AwaitSingleAwaiter<true>: await_resume = as_const(result).Ok()  (copies the value out)
     code = v.CodeOf();
   } catch (const yaclib::ResultError<Err>& e) {
     code = const_cast<yaclib::ResultError<Err>&>(e).Get().CodeOf();
   } catch (...) {
-    code = 9999;
+    code = 99;
   }
   Fired(*rec, code);
   vrt::Event("cb " + rec->name + " " + std::to_string(code));
@@ -250,6 +250,7 @@ void Observer(int oi, SF f, const std::string& ops, Run& run, CountingInline& ex
   const std::string h = "h" + std::to_string(oi);
   std::vector<std::pair<std::string, SF>> copies;
   bool have = true;
+  bool spent = false;  // Get()&& / Touch()&& consumed the future: only its destruction may follow
   int n = 0;
   auto cbname = [&] {
     return "c" + std::to_string(oi) + "_" + std::to_string(n++);
@@ -264,7 +265,7 @@ void Observer(int oi, SF f, const std::string& ops, Run& run, CountingInline& ex
     return b;
   };
   for (char op : ops) {
-    if (!have) {
+    if (!have || spent) {
       break;
     }
     switch (op) {
@@ -290,6 +291,7 @@ void Observer(int oi, SF f, const std::string& ops, Run& run, CountingInline& ex
           long code = Code(r);
           vrt::Event("got " + std::to_string(code));
           CheckGot("Touch()&&", code);
+          spent = true;
         }
         break;
       case 'w':
@@ -314,6 +316,7 @@ void Observer(int oi, SF f, const std::string& ops, Run& run, CountingInline& ex
         long code = Code(r);
         vrt::Event("got " + std::to_string(code));
         CheckGot("Get()&&", code);
+        spent = true;
         break;
       }
       case 'i':
@@ -438,7 +441,7 @@ Plan Parse(const std::string& name) {
 void RunPlan(const Plan& plan) {
   U = Under{};
   const std::string& fk = plan.fulfil;
-  U.expected = (fk == "err") ? 2005 : (fk == "drop") ? 2999 : 1042;
+  U.expected = (fk == "err") ? 25 : (fk == "drop") ? 29 : 12;  // small numbers: the model replays them in unary
   std::optional<SF> f0;
   std::optional<SP> p;
   std::optional<yaclib::Promise<Val, Err>> up;
@@ -490,13 +493,13 @@ void RunPlan(const Plan& plan) {
     U.set_started = true;
     vrt::Event("set " + std::to_string(U.expected));
     if (fk == "set" || fk == "nofut") {
-      std::move(*p).Set(Val{42});
+      std::move(*p).Set(Val{2});
     } else if (fk == "err") {
       std::move(*p).Set(Err{5});
     } else if (fk == "drop") {
       p.reset();  // ~SharedPromise: Set(StopTag)
     } else {
-      std::move(*up).Set(Val{42});  // reaches the shared state through SharedCore::Here (Impl<false, true>)
+      std::move(*up).Set(Val{2});  // reaches the shared state through SharedCore::Here (Impl<false, true>)
     }
     vrt::Event("setdone");
   });
@@ -528,10 +531,29 @@ void RunPlan(const Plan& plan) {
   }
 }
 
+// Explorer reduction (this harness only): a fiber switch is offered only before operations on the two NAMED
+// locations (the callback word and the reference counter) and wherever a fiber blocks or exits.  Everything the model
+// and the oracle look at is an operation on one of the two locations or a harness marker glued to it; a switch before
+// an un-named operation (thread start/join, the mutex/condvar inside a Wait event, executor internals) only moves
+// un-observed work of that fiber relative to the others, and the same relative order of the observed operations is
+// reached by not scheduling the affected fiber.  Spinning fibers are still preempted.
+bool g_named_only = true;
+std::int64_t ChooseNamedOnly(int kind, std::uint64_t n) {
+  auto& g = vrt::g;
+  if (g_named_only && kind == yaclib::verif::kYield && g.active && g.at_before && g.repeat < g.opt.spin_limit &&
+      g.locs.find(g.last_obj) == g.locs.end()) {
+    g.at_before = false;
+    return 0;
+  }
+  return vrt::detail::Choose(kind, n);
+}
+
 }  // namespace
 
 int main(int argc, char** argv) {
   vrt::Main m(argc, argv);
+  g_named_only = m.Param("named_only", "1") == "1";
+  yaclib::verif::gHooks.choose = ChooseNamedOnly;
   std::string plans = m.Param("plans");
   std::stringstream ss(plans);
   std::string name;
